@@ -1,7 +1,7 @@
 #!/bin/sh
 # usage: bin/eval_seed2.sh <Cxx> <A|B> [extra checks...] -- round-2 seeds: /tmp/mut2/<Cxx>/OUT/<X>/{patch.diff,demo.py,notes.md}
 ID="$1"; X="$2"; shift; shift
-WT=/tmp/mut2/$ID
+WT=${MUTROOT:-/tmp/mut2}/$ID
 OUT=$WT/OUT/$X
 cd "$WT" || exit 2
 git -C "$WT" checkout -q -- . ; git -C "$WT" apply "$OUT/patch.diff" || { echo "patch does not apply in worktree"; exit 2; }
@@ -12,7 +12,7 @@ PYTHONPATH=$WT timeout 300 /venv/bin/python "$OUT/demo.py" > "$OUT/demo_with.log
 git -C "$WT" checkout -q -- .
 echo "--- demo without the change (expect exit 0)"
 PYTHONPATH=$WT timeout 300 /venv/bin/python "$OUT/demo.py" > "$OUT/demo_without.log" 2>&1; echo "exit=$?"
-D=/verif/seeded/$ID-r2$X
+D=/verif/seeded/$ID-${ROUND:-r2}$X
 mkdir -p $D
 cp "$OUT/patch.diff" "$OUT/demo.py" $D/; cp "$OUT/notes.md" $D/ 2>/dev/null
 echo "--- our checks against it"
